@@ -184,12 +184,32 @@ func TestC16_VestingSchedule(t *testing.T) {
 					t.Fatalf("%s", viol("C16", "stranger-accepted", h, "a stranger's vesting operation was accepted :: %s", what))
 				}
 			case "delete":
+				pBefore, _ := l.VestingPool(pid)
 				o, err = h.Do(l.VestingDelete(owner, pid))
 				if err == nil {
 					if o.Failed || o.Rejected {
 						t.Fatalf("%s", viol("C16", "owner-cannot-delete", h, "the owner's delete failed: %s %v :: %s", o.Output, o.Err, what))
 					}
 					deleted = true
+					// a delete at or after expiry settles every live destination in full: it is the last chance for a
+					// destination to receive its amount, the owner gets the excess only
+					if int64(h.Now) >= endT && pBefore != nil {
+						aft := h.Snap()
+						for _, d := range pBefore.Destinations {
+							if !live[d.ID] {
+								continue
+							}
+							want := uint64(d.Amount) - uint64(d.Vested)
+							got := aft.Bal[d.ID] - before.Bal[d.ID]
+							if d.ID == owner.ID {
+								continue // owner and destination at once: its gain mixes both
+							}
+							if got != want {
+								t.Fatalf("%s", viol("C16", "delete-after-expiry-shortchanges-destination", h, "delete after expiry paid %s %d, its amount is %d of which %d were vested before (it is owed %d) :: %s", h.Label(d.ID), got, uint64(d.Amount), uint64(d.Vested), want, what))
+							}
+						}
+						st.Class("delete_at_or_after_expiry")
+					}
 				}
 			}
 			if err != nil {
